@@ -427,16 +427,25 @@ DropStep(e) ==
        /\ taint' = taint /\ broken' = broken
        /\ nbad' = nbad + Cardinality(bad)
 
+(* A clone of a value may have another heap size than the original (a String with spare     *)
+(* capacity clones to a tight one).  The clone copies the RECORDED sizes, so entries whose   *)
+(* value changed size in cloning are treated like those of a crashed mutate: their recorded  *)
+(* size may lag (C02 speaks of values whose size changes only inside mutate).                *)
+MaskVs(s) == [s EXCEPT !.ord = [i \in DOMAIN s.ord |-> [s.ord[i] EXCEPT !.vs = 0]]]
+ShiftedKeys(src, dst) == {dst.ord[i].k : i \in {j \in DOMAIN dst.ord :
+                                                  j > Len(src.ord) \/ dst.ord[j].vs # src.ord[j].vs}}
+
 CloneStep(e) ==
     LET c == e.c  d == e.d  pre == cs[c]  post == PostOf(e.st)  dpost == PostOf(e.dst)
         want == CloneOf(pre)
-        bad == {<<"C14", "clone_state">> : z \in IF dpost = want THEN {} ELSE {1}}
-               \cup {<<"C14", "C14_Clone">> : z \in IF C14_Clone(pre, dpost) THEN {} ELSE {1}}
+        bad == {<<"C14", "clone_state">> : z \in IF MaskVs(dpost) = MaskVs(want) THEN {} ELSE {1}}
+               \cup {<<"C14", "C14_Clone">> : z \in IF C14_Clone(MaskVs(pre), MaskVs(dpost)) THEN {} ELSE {1}}
                \cup {<<"C14", "clone_marks">> : z \in IF \A i \in DOMAIN e.dst.marks :
                          e.dst.marks[i] = <<<<"CK", e.dst.ord[i][1]>>, <<"CV", e.dst.ord[i][1]>>>>
                          THEN {} ELSE {1}}
                \cup {<<"C14", "clone_entry_size">> : z \in IF \A i \in DOMAIN e.dst.ord :
-                         dpost.ord[i].k \in stale[c] \/ e.dst.ord[i][4] = dpost.ord[i].rec THEN {} ELSE {1}}
+                         dpost.ord[i].k \in stale[c] \cup ShiftedKeys(pre, dpost)
+                         \/ e.dst.ord[i][4] = dpost.ord[i].rec THEN {} ELSE {1}}
                \cup {<<"C07", "WellFormed">> : z \in IF WellFormed(e.dst) /\ WellFormed(e.st) THEN {} ELSE {1}}
                \cup {<<"C19", "source_changed">> : z \in IF post = pre /\ e.fp = e.pre_fp THEN {} ELSE {1}}
                \cup {<<"C14", "frame">> : z \in IF \A i \in DOMAIN e.others : e.others[i][2] THEN {} ELSE {1}}
@@ -445,7 +454,7 @@ CloneStep(e) ==
     IN /\ Report(l, bad)
        /\ cs' = [cs EXCEPT ![c] = post, ![d] = dpost]
        /\ last' = [last EXCEPT ![c] = Remember(e.st), ![d] = Remember(e.dst)]
-       /\ gh' = Fn(gh, d, gh[c]) /\ stale' = Fn(stale, d, stale[c])
+       /\ gh' = Fn(gh, d, gh[c]) /\ stale' = Fn(stale, d, stale[c] \cup ShiftedKeys(pre, dpost))
        /\ taint' = taint /\ broken' = broken
        /\ nbad' = nbad + Cardinality(bad)
 
@@ -456,7 +465,7 @@ CloneFromStep(e) ==
     LET c == e.c  d == e.d  pre == cs[c]  post == PostOf(e.st)  dpost == PostOf(e.dst)  old == cs[d]
         oldObjs == UNION {{<<"XK", old.ord[i].k * 100 + d>>, <<"XV", old.ord[i].k * 100 + d>>}
                           : i \in DOMAIN old.ord}
-        bad == {<<"C14", "clone_state">> : z \in IF dpost.alive /\ dpost.ord = pre.ord /\ dpost.cur = pre.cur
+        bad == {<<"C14", "clone_state">> : z \in IF dpost.alive /\ MaskVs(dpost).ord = MaskVs(pre).ord /\ dpost.cur = pre.cur
                                                    /\ dpost.max = pre.max /\ Cap(dpost) >= Len(dpost.ord)
                                                THEN {} ELSE {1}}
                \cup {<<"C01", "C01_Bound">> : z \in IF C01_Bound(dpost) THEN {} ELSE {1}}
@@ -473,7 +482,7 @@ CloneFromStep(e) ==
        /\ cs' = [cs EXCEPT ![c] = post, ![d] = dpost]
        /\ last' = [last EXCEPT ![c] = Remember(e.st), ![d] = Remember(e.dst)]
        /\ gh' = Fn(gh, d, [gh[c] EXCEPT !.peak = Max2(gh[c].peak, gh[d].peak), !.req = Max2(gh[c].req, gh[d].req)])
-       /\ stale' = Fn(stale, d, stale[c])
+       /\ stale' = Fn(stale, d, stale[c] \cup ShiftedKeys(pre, dpost))
        /\ taint' = taint /\ broken' = broken
        /\ nbad' = nbad + Cardinality(bad)
 
@@ -503,7 +512,8 @@ CallStep(e) ==
                     \cup {<<"C13", "C13_GrowthBound">> : z \in
                              IF C13_GrowthBound(post, GhostNext(gh[c], pre, a, x)) THEN {} ELSE {1}}
         bad == Retaint(bad0, taint)
-        st1 == (stale[c] \cap KeysOf(post.ord)) \ {x.fresh}
+        st1 == ((stale[c] \cap KeysOf(post.ord)) \ {x.fresh})
+               \ (IF a.op = "mutate" /\ ~crashed THEN {a.k} ELSE {})
     IN /\ Report(l, bad)
        /\ cs' = Fn(cs, c, post) /\ last' = Fn(last, c, Remember(e.st))
        /\ gh' = Fn(gh, c, GhostNext(gh[c], pre, a, x))
